@@ -82,6 +82,26 @@ pub fn gen(rng: &mut Rng, kind: &str, size: &str, profile: &str) -> Scenario {
         "churn" => return gen_churn(rng, kind, size),
         "limit0" => return gen_limit0(rng, kind, size),
         "manygroups" => return gen_manygroups(rng, kind, size),
+        "stale_empty" => {
+            // everything finishes and is yielded; then the kept (stale) wakers of all of them fire: the collection is
+            // empty and must say so, however many stale entries its ready queue holds (more than the poll budget)
+            let n = rng.pick(&[62u32, 70, 130, 200]);
+            let mut sc = gen_stale_n(rng, kind, n);
+            let last = n + 1;
+            sc.scripts.insert(last, vec![Step { acts: vec![], resp: "P".into() }, Step { acts: vec![], resp: if is_stream_kind(kind) { "E" } else { "R" }.into() }]);
+            // finish the survivor too, before the stale wakers fire: insert its wake and two polls in front of them
+            let pos = sc.ops.iter().rposition(|o| matches!(o, Op::Poll { .. })).map(|i| i + 1).unwrap_or(sc.ops.len());
+            sc.ops.insert(pos, Op::Wake { c: last, by_val: false });
+            sc.ops.insert(pos + 1, Op::Poll { w: 1 });
+            sc.ops.insert(pos + 2, Op::Poll { w: 1 });
+            for c in 1..=n {
+                sc.ops.push(Op::Wake { c, by_val: false });
+            }
+            sc.ops.push(Op::Poll { w: 1 });
+            sc.ops.push(Op::Poll { w: 1 });
+            sc.tail = "drain".into();
+            return sc;
+        }
         "stale_big" => {
             let n = 190 + rng.below(120) as u32;
             return gen_stale_n(rng, kind, n);
